@@ -404,7 +404,9 @@ def r02_4_recursion_guards(ctx):
     ctx.check(ok, "R02.4", "spill:byref-rejected-first", "the by-reference recursion check (TealInputError) must precede the spill rewriting", f.where, fact={"raises": [r.lineno for r in raises]})
     # the rejection condition: a routine with re-entry points and by_ref_args
     conds = [n for n in walk_local(f.node) if isinstance(n, ast.If) and "by_ref_args" in u(n.test)]
-    ctx.check(len(conds) == 1 and isinstance(conds[0].test, ast.BoolOp) and isinstance(conds[0].test.op, ast.And) and sorted(u(v) for v in conds[0].test.values) == ["k.by_ref_args", "v"], "R02.4", "spill:byref-condition", f"a routine is rejected iff it has re-entry points and by-reference parameters; found `{u(conds[0].test) if conds else None}`", f.where, fact={})
+    loopt = [a.target for a in q.ancestors(conds[0]) if isinstance(a, ast.For)] if conds else []
+    kv = [u(e) for e in loopt[0].elts] if loopt and isinstance(loopt[0], ast.Tuple) and len(loopt[0].elts) == 2 else ["k", "v"]
+    ctx.check(len(conds) == 1 and isinstance(conds[0].test, ast.BoolOp) and isinstance(conds[0].test.op, ast.And) and sorted(u(v) for v in conds[0].test.values) == sorted([f"{kv[0]}.by_ref_args", kv[1]]), "R02.4", "spill:byref-condition", f"a routine is rejected iff it has re-entry points and by-reference parameters; found `{u(conds[0].test) if conds else None}`", f.where, fact={})
     ctx.require_min("R02.4", 7)
 
 
